@@ -1592,6 +1592,22 @@ func init() {
 			for _, hu := range helpersIn(decision.Body, info, 0, map[*types.Func]bool{}) {
 				phase2 = append(phase2, region{info: hu.u.Pkg.TypesInfo, root: hu.u.Decl.Body})
 			}
+			// a local closure defined before the loop and called inside it (`preserveDefinition := func(…) {…}`)
+			// runs in the decision phase: its body is read with it
+			ast.Inspect(decision.Body, func(n ast.Node) bool {
+				ce, ok := n.(*ast.CallExpr)
+				if !ok {
+					return true
+				}
+				if id, ok := ast.Unparen(ce.Fun).(*ast.Ident); ok {
+					if d := soleDef(info, fd.Body, id); d != nil {
+						if fl, ok := ast.Unparen(d).(*ast.FuncLit); ok {
+							phase2 = append(phase2, region{info: info, root: fl.Body})
+						}
+					}
+				}
+				return true
+			})
 			// late statements of this function (after the decision loop) count as phase 2 too
 			for _, st := range fd.Body.List {
 				if st.Pos() >= decision.End() {
@@ -1636,12 +1652,60 @@ func init() {
 				viaQual     bool
 				viaCount    bool
 			}
+			// readOnlyParam: the callee (a helper of the package) only LOOKS UP in the map it receives in
+			// position i — no element store, no ++/--, no delete, and it hands the map to nothing else
+			readOnlyParam := func(callee *types.Func, i int) bool {
+				cd := c.declOf[callee]
+				if callee == nil || cd == nil || cd.Body == nil || callee.Pkg() != fn.Pkg() {
+					return false
+				}
+				sig := callee.Type().(*types.Signature)
+				if i >= sig.Params().Len() {
+					return false
+				}
+				pv := sig.Params().At(i)
+				ci := c.pkgOf[cd].TypesInfo
+				ro := true
+				ast.Inspect(cd.Body, func(k ast.Node) bool {
+					switch y := k.(type) {
+					case *ast.AssignStmt:
+						for _, l := range y.Lhs {
+							if ix, ok := ast.Unparen(l).(*ast.IndexExpr); ok && identObj(ci, ix.X) == pv {
+								ro = false
+							}
+							if identObj(ci, l) == pv {
+								ro = false
+							}
+						}
+					case *ast.IncDecStmt:
+						if ix, ok := ast.Unparen(y.X).(*ast.IndexExpr); ok && identObj(ci, ix.X) == pv {
+							ro = false
+						}
+					case *ast.CallExpr:
+						for _, a := range y.Args {
+							if identObj(ci, a) == pv {
+								ro = false
+							}
+						}
+					}
+					return true
+				})
+				return ro
+			}
 			uses := map[types.Object]*mapUse{}
 			for _, r := range phase2 {
 				ast.Inspect(r.root, func(n ast.Node) bool {
 					if ix, ok := n.(*ast.IndexExpr); ok {
 						if o := mapKey(r.info, ix.X); o != nil && uses[o] == nil {
 							uses[o] = &mapUse{obj: o}
+						}
+					}
+					// a map handed to a helper that only looks things up in it is consulted there
+					if ce, ok := n.(*ast.CallExpr); ok {
+						for i, a := range ce.Args {
+							if o := mapKey(r.info, a); o != nil && uses[o] == nil && readOnlyParam(originOf(Callee(r.info, ce)), i) {
+								uses[o] = &mapUse{obj: o}
+							}
 						}
 					}
 					return true
@@ -1681,8 +1745,11 @@ func init() {
 				ast.Inspect(r.root, func(n ast.Node) bool {
 					switch x := n.(type) {
 					case *ast.CallExpr:
-						for _, a := range x.Args {
+						for ai, a := range x.Args {
 							if mu := uses[mapKey(r.info, a)]; mu != nil {
+								if readOnlyParam(originOf(Callee(r.info, x)), ai) {
+									continue // a lookup, not a fill
+								}
 								if late || !inLoop(x) {
 									mu.fillsLate = append(mu.fillsLate, x)
 								} else {
